@@ -20,6 +20,9 @@
 #include "core/Macros.h"
 #include "core/print_error.h"
 
+// Every taken block is a recursive call of assemble().
+#define MAX_NESTED_IFDEFS 128
+
 int ifdef_ignore(AsmContext *asm_context)
 {
   char token[TOKENLEN];
@@ -135,6 +138,12 @@ int parse_ifdef(AsmContext *asm_context, int ifndef)
 
   asm_context->ifdef_count++;
 
+  if (asm_context->ifdef_count > MAX_NESTED_IFDEFS)
+  {
+    print_error(asm_context, "Conditionals nested too deeply");
+    return -1;
+  }
+
   asm_context->parsing_ifdef = 1;
   token_type = tokens_get(asm_context, token, TOKENLEN);
   asm_context->parsing_ifdef = 0;
@@ -167,6 +176,12 @@ int parse_if(AsmContext *asm_context)
   int num;
 
   asm_context->ifdef_count++;
+
+  if (asm_context->ifdef_count > MAX_NESTED_IFDEFS)
+  {
+    print_error(asm_context, "Conditionals nested too deeply");
+    return -1;
+  }
 
   asm_context->parsing_ifdef = 1;
   num = eval_ifdef_expression(asm_context);
